@@ -14,7 +14,7 @@
         required option, 6 declaration outside
         the statement (key with a dot or a leading '-', or nothing left by the signature rules). *)
 From JV Require Import Lib.Base Model.C07Decl Model.C07Parse
-  Proofs.C07TableProofs Proofs.C07ParseProofs Proofs.C07MemberProofs Proofs.C07Proofs.
+  Proofs.C07TableProofs Proofs.C07ParseProofs Proofs.C07MemberProofs Proofs.C07Proofs Proofs.C07NestedProofs.
 
 (* The core: for EVERY group key, EVERY field list (any length), ANY loaders and EVERY input mix inside the guard,
    the four styles give the same accept/reject/exit decision, the same nested values and the same dumped
@@ -249,3 +249,80 @@ Theorem C07_hyphen_key_default_override_refuted :
     /\ as_class_group_m true full gk ms = Some (as_inner_parser_m (dashes ++ gk) (mnorm ms)).
 Proof. exact hyphen_key_default_override_refuted. Qed.
 Print Assumptions C07_hyphen_key_default_override_refuted.
+
+(* ================= nested declarations (a dataclass-typed member = a sub-group), tables =================
+   For EVERY group key and EVERY member list with leaves and dataclass-typed members in any number and order (any
+   types, defaults or none, private names, lists the signature rules rewrite) that carries no declaration-time default
+   (plain_member: no default= override, no default instance on a dataclass-typed member): the class style
+   (_add_signature_parameter recursing into add_class_arguments for the member, _create_group_if_requested adding the
+   sub-group's loader), the dataclass style and the inner-parser style (an ActionParser holding a nested
+   ActionParser: _move_parser_actions applied twice) build ONE AND THE SAME action table — for the tree as it is and
+   for the repaired one (fixkey), for either kind of default= mapping. *)
+Theorem C07_grouped_tables_equal_nested :
+  forall (fixkey full : bool) (gk : str) (ms : list member),
+    starts_dash gk = false -> ms <> [] -> forallb plain_member ms = true ->
+    let T := as_inner_parser_m (dashes ++ gk) (mnorm ms) in
+    as_class_group_m fixkey full gk ms = Some T /\ as_dataclass_m fixkey (dashes ++ gk) ms = Some T.
+Proof. exact grouped_tables_equal_nested. Qed.
+Print Assumptions C07_grouped_tables_equal_nested.
+
+(* ... hence the three grouped styles answer EVERY input identically on such declarations: whole-group and
+   whole-sub-group values (--g=JSON, --g.s=JSON, APP_G, APP_G__S, strings in configs) included. *)
+Theorem C07_grouped_styles_agree_nested :
+  forall (pv jl : str -> val) (fixkey full : bool) (gk : str) (ms : list member) (inp : input),
+    starts_dash gk = false -> ms <> [] -> forallb plain_member ms = true ->
+    let r := run pv jl (as_inner_parser_m (dashes ++ gk) (mnorm ms)) inp in
+    (exists Tc, as_class_group_m fixkey full gk ms = Some Tc /\ run pv jl Tc inp = r)
+    /\ (exists Td, as_dataclass_m fixkey (dashes ++ gk) ms = Some Td /\ run pv jl Td inp = r).
+Proof. exact grouped_styles_agree_nested. Qed.
+Print Assumptions C07_grouped_styles_agree_nested.
+
+(* The dotted style owns exactly the LEAF actions of the grouped table, in the same order, and the same required keys
+   — for EVERY normalised member list (nested members, overrides and default instances included; leaf_rows_t = the
+   rows that are not _ActionConfigLoad rows). *)
+Theorem C07_dotted_leaves_of_grouped_table :
+  forall (gk : str) (nms : list member),
+    leaf_rows_t (as_inner_parser_m (dashes ++ gk) nms) = t_rows (as_dotted_m gk nms)
+    /\ t_required (as_inner_parser_m (dashes ++ gk) nms) = t_required (as_dotted_m gk nms).
+Proof. exact dotted_leaves_of_grouped_table. Qed.
+Print Assumptions C07_dotted_leaves_of_grouped_table.
+
+(* The same when dataclass-typed members have a DEFAULT INSTANCE (plain_member_d): the nested
+   add_class_arguments(Sub, gk.n, default=Sub()) then runs set_defaults over the member type's own defaults; with
+   pairwise different identifier names (names_ok) and a key whose dest is the key (no '-': otherwise finding class 8)
+   every entry finds its action and changes nothing (a dest gk.n.f is owned by exactly one action, which already holds
+   that default), so the table is again the inner-parser style's. *)
+Theorem C07_grouped_tables_equal_nested_mdef :
+  forall (fixkey full : bool) (gk : str) (ms : list member),
+    starts_dash gk = false -> ms <> [] -> forallb plain_member_d ms = true ->
+    (has_mdef ms = true -> has_dash gk = false /\ names_ok (mnorm ms) = true) ->
+    let T := as_inner_parser_m (dashes ++ gk) (mnorm ms) in
+    as_class_group_m fixkey full gk ms = Some T /\ as_dataclass_m fixkey (dashes ++ gk) ms = Some T.
+Proof. exact grouped_tables_equal_nested_d. Qed.
+Print Assumptions C07_grouped_tables_equal_nested_mdef.
+
+(* The statement the judged TABLE cases of nested declarations are inside (table_class = 0 is v_class of the judge:
+   a nested declaration without default= override, inside no other finding class): the property "the declared
+   options are the same" for all four styles. *)
+Theorem C07_nested_tables_agree :
+  forall (fixkey full : bool) (gk : str) (ms : list member),
+    table_class gk ms = 0%N -> has_nested ms = true ->
+    let T := as_inner_parser_m (dashes ++ gk) (mnorm ms) in
+    as_class_group_m fixkey full gk ms = Some T /\ as_dataclass_m fixkey (dashes ++ gk) ms = Some T
+    /\ leaf_rows_t T = t_rows (as_dotted_m gk (mnorm ms)) /\ t_required T = t_required (as_dotted_m gk (mnorm ms)).
+Proof. exact nested_tables_agree. Qed.
+Print Assumptions C07_nested_tables_agree.
+
+(* g: a:int=1, s:{lr:int (required), m:str=None}, b:Optional[List[int]] without default *)
+Example C07_nested_hypotheses_satisfiable :
+  starts_dash [103]%N = false /\ wn_members <> [] /\ forallb plain_member wn_members = true
+  /\ has_nested wn_members = true /\ table_class [103]%N wn_members = 0%N
+  /\ length (t_rows (as_inner_parser_m (dashes ++ [103]%N) (mnorm wn_members))) = 6.
+Proof. exact nested_hypotheses_satisfiable. Qed.
+
+(* the same declaration with a default instance on the member s (s: {m: str = None}) *)
+Example C07_nested_hypotheses_satisfiable_mdef :
+  starts_dash [103]%N = false /\ wn_members_d <> [] /\ forallb plain_member_d wn_members_d = true
+  /\ has_mdef wn_members_d = true /\ has_dash [103]%N = false /\ names_ok (mnorm wn_members_d) = true
+  /\ table_class [103]%N wn_members_d = 0%N.
+Proof. exact nested_hypotheses_satisfiable_d. Qed.
